@@ -240,12 +240,12 @@ class KRun:
     def count(self, key, n=1):
         self.distribution[key] = self.distribution.get(key, 0) + n
 
-    def run(self, backend, ops, tag=None):
+    def run(self, backend, ops, tag=None, cfg=None):
         """returns the implementation's result lines; compares with the model"""
         if not ops:
             return []
         tag = tag or f"{self.pid}-{backend}"
-        impl, model = kops.run_both(self.ctx, backend, ops, tag)
+        impl, model = kops.run_both(self.ctx, backend, ops, tag, cfg)
         self.evaluations += len(ops)
         if model is not None:
             for op, a, b in zip(ops, impl, model):
